@@ -81,6 +81,13 @@ var handShapes = []struct {
 		{K: "merge", Key: "a@1"}, {K: "set", Key: "a@3"}, {K: "merge", Key: "b@2"}}},
 	// three consecutive deleted keys between two live ones (sparse key space: limits pause on
 	// invisible keys, the SeekGE no-op optimisation, TrySeekUsingNext over tombstones)
+	// one table (with its bloom filter) that lacks the prefix c, c only in the memtable
+	{"l6-table-without-c", []hx.Op{
+		{K: "set", Key: "a"}, {K: "set", Key: "a@3"}, {K: "set", Key: "a@1"}, {K: "set", Key: "b@2"},
+		{K: "flush"}, {K: "compact"}, {K: "set", Key: "c"}}},
+	// one L0 table that lacks the prefix b
+	{"l0-table-without-b", []hx.Op{
+		{K: "set", Key: "a"}, {K: "set", Key: "a@3"}, {K: "set", Key: "a@1"}, {K: "set", Key: "c"}, {K: "flush"}}},
 	{"tombstone-run", []hx.Op{
 		{K: "set", Key: "a"}, {K: "set", Key: "a@3"}, {K: "set", Key: "a@1"}, {K: "set", Key: "b@2"}, {K: "set", Key: "c"},
 		{K: "flush"}, {K: "compact"},
